@@ -1,13 +1,16 @@
 #!/bin/bash
 # usage: tools/try_seed.sh <seed-dir-name e.g. C01-m2> [property] [tier]
-# applies the seeded patch to /repo, runs the check, and always reverts /repo afterwards.
+# Applies the seeded patch to a scratch worktree of /repo (never to /repo itself), runs the check
+# against it (VF_REPO), writes evidence/replays to a scratch dir, and removes the worktree.
 S=$1; P=${2:-${S%%-*}}; T=${3:-quick}
-cd /verif
-if ! git -C /repo diff --quiet; then echo "/repo not clean"; exit 3; fi
-git -C /repo apply /verif/seeded/$S/patch.diff || { echo "patch failed"; exit 3; }
-trap 'git -C /repo checkout -- . ; git -C /repo clean -fdq' EXIT
-./check $P $T > /tmp/try_$S.$P.log 2>&1
+cd "$(dirname "$0")/.."
+W=$(mktemp -d /tmp/vfseed.XXXXXX)
+git -C /repo worktree add --detach "$W/repo" HEAD >/dev/null 2>&1 || { echo "worktree failed"; exit 3; }
+trap 'git -C /repo worktree remove --force "$W/repo" >/dev/null 2>&1; rm -rf "$W"' EXIT
+git -C "$W/repo" apply "$(pwd)/seeded/$S/patch.diff" || { echo "patch failed"; exit 3; }
+mkdir -p /tmp/vf_try
+VF_REPO="$W/repo" VF_OUT="$W/out" ./check $P $T > /tmp/vf_try/$S.$P.log 2>&1
 rc=$?
-grep -E "VIOLATION|why:|exception:|HARNESS-ERROR|summary|KNOWN" /tmp/try_$S.$P.log | head -12
-echo "exit=$rc seed=$S property=$P"
+grep -E "VIOLATION|why:|exception:|HARNESS-ERROR|summary|KNOWN|INCONCLUSIVE" /tmp/vf_try/$S.$P.log | head -14
+echo "exit=$rc seed=$S property=$P tier=$T log=/tmp/vf_try/$S.$P.log"
 exit $rc
